@@ -25,6 +25,7 @@ FailedInvs(i, s) ==
   \cup (IF NoStuckTransfer(s) THEN {} ELSE {"NoStuckTransfer"})
   \cup (IF \A d \in Denoms(s) : Value(s, d) = Value(Trace[StartOf(i)].state, d) THEN {} ELSE {"Holdings"})
   \cup (IF Trace[i].e.e.type = "AdvanceBlock" /\ ~Completeness(s) THEN {"Completeness"} ELSE {})
+  \cup (IF FlowOver(Trace[i - 1].state, [e |-> Trace[i].e, ok |-> Trace[i].ok, resp |-> Trace[i].resp], s, Users(s), Denoms(s)) THEN {} ELSE {"Flow"})   \* on the OBSERVED pre/post states
   \cup (IF "expectDrained" \in DOMAIN Trace[i].e.e /\ ~Drained(s) THEN {"DrainedAfterCanonicalSchedule"} ELSE {})
 
 CheckLine(i) ==
